@@ -36,7 +36,8 @@ impl Sender {
 #[derive(Clone, Debug)]
 pub struct Cand { pub sender: Sender, pub to: Option<Address>, pub data: Vec<u8>, pub label: String }
 
-pub struct World { pub tools: Vec<Address>, pub funded: bool }
+pub struct World { pub tools: Vec<Address>, pub funded: bool, /// (refunder, forwarder) gas-shape contracts
+    pub shapes: Option<(Address, Address)> }
 
 /// Deterministic world: genesis, two multi-tools, some storage, a funded pkscript.
 pub fn build_world(d: &mut Drv, rng: &mut Rng, fails: &mut Vec<Value>) -> Option<World> {
@@ -55,8 +56,15 @@ pub fn build_world(d: &mut Drv, rng: &mut Rng, fails: &mut Vec<Value>) -> Option
     let (r, _) = d.deposit(PKSCRIPTS[0], "ordi", 1_000_000, t0 + 600, &h, false);
     let funded = r.map(|v| v.get("status").and_then(|s| s.as_str()) == Some("0x1")).unwrap_or(false);
     let _ = d.call(PKSCRIPTS[1], Some(tools[0]), Some(&cd::sstore(U256::from(1), U256::from(77))), 50, &rnd_hash(rng), t0 + 600, &h);
+    // gas-shape contracts: refunder (32 slots set to 5), burner, forwarder
+    let addr_of = |r: envs::Rpc| r.ok().and_then(|v| v.get("contractAddress").and_then(|a| a.as_str()).map(|s| Hx::from_hex(s).to_address())).filter(|a| *a != Address::ZERO);
+    let refunder = addr_of(d.deploy(PKSCRIPTS[2], &sim::init_returning(&sim::refunder_runtime()), 400, &rnd_hash(rng), t0 + 600, &h).0);
+    let burner = addr_of(d.deploy(PKSCRIPTS[2], &sim::init_returning(&sim::burner_runtime()), 400, &rnd_hash(rng), t0 + 600, &h).0);
+    let forwarder = burner.and_then(|b| addr_of(d.deploy(PKSCRIPTS[2], &sim::init_returning(&sim::forwarder_runtime(b)), 400, &rnd_hash(rng), t0 + 600, &h).0));
+    if let Some(r) = refunder { let _ = d.call(PKSCRIPTS[2], Some(r), Some(&U256::from(5).to_be_bytes::<32>()), 100, &rnd_hash(rng), t0 + 600, &h); }
+    let shapes = match (refunder, forwarder) { (Some(r), Some(f)) => Some((r, f)), _ => { fails.push(json!({"what": "setup: gas-shape contract deployment failed", "case": {"history": d.log.clone()}})); None } };
     let _ = d.finalise(t0 + 600, &h);
-    Some(World { tools, funded })
+    Some(World { tools, funded, shapes })
 }
 
 /// A call that does not read timestamp, randomness, remaining gas (beyond forwarding) or the txid.
@@ -75,7 +83,10 @@ pub fn gen_cand(rng: &mut Rng, w: &World) -> Cand {
             _ => (cd::sload(U256::from(sim::SLOT_CHILD)), "sload-child"),
         }
     };
-    let (to, data, label): (Option<Address>, Vec<u8>, String) = match rng.below(16) {
+    let (to, data, label): (Option<Address>, Vec<u8>, String) = match rng.below(if w.shapes.is_some() { 19 } else { 16 }) {
+        16 => (w.shapes.map(|s| s.0), U256::from(rng.range(1, 9)).to_be_bytes::<32>().to_vec(), "refund-set".into()),
+        17 => (w.shapes.map(|s| s.0), vec![0u8; 32], "refund-clear".into()),
+        18 => (w.shapes.map(|s| s.1), vec![], "forward-burn".into()),
         0..=5 => { let (d, l) = inner(rng); (Some(tool), d, l.to_string()) }
         6 | 7 => { let (d, l) = inner(rng); (Some(tool), cd::call(other, &d), format!("nested-{}", l)) }
         8 => (Some(tool), cd::spin(), "spin".into()),
@@ -124,6 +135,47 @@ pub fn run(out: &Path, seed: u64, thorough: bool) -> Result<(), Box<dyn std::err
     let mut glue_divergent = 0u64;
     let worlds = if thorough { 12 } else { 6 };
     let steps = if thorough { 400 } else { 110 };
+    // ---- the very first boundary: an empty database (nothing finalised, no genesis yet) ----------
+    // the simulation and the first transaction of block 0 must agree; only a creation can run code
+    // there. The init code returns the block number / the hash of "block -1" as runtime code.
+    for variant in 0..2u64 {
+        let cfg = NetCfg::regtest();
+        let mut d = Drv::new(cfg.clone());
+        let init: Vec<u8> = if variant == 0 {
+            { let mut a = sim::Asm::new(); a.op(sim::opc::NUMBER).op(sim::opc::PUSH0).op(sim::opc::MSTORE).pushn(32).op(sim::opc::PUSH0).op(sim::opc::RETURN); a.finish() }
+        } else {
+            { let mut a = sim::Asm::new(); a.pushn(1).op(sim::opc::NUMBER).op(sim::opc::ADD).op(sim::opc::PUSH0).op(sim::opc::MSTORE).pushn(32).op(sim::opc::PUSH0).op(sim::opc::RETURN); a.finish() }
+        };
+        let from = sim::pkscript_address(PKSCRIPTS[0]);
+        let (sr, ssim) = d.eth_call(Some(from), None, &init, None);
+        let sim_out = call_outcome(&sr).unwrap_or((false, vec![]));
+        let h = rnd_hash(&mut rng);
+        let (r, ss) = d.deploy(PKSCRIPTS[0], &init, 1000, &rnd_hash(&mut rng), 1_700_000_000, &h);
+        pairs += 1;
+        *dist.entry("empty-chain:create-number".into()).or_insert(0) += 1;
+        let created = r.as_ref().ok().and_then(|v| v.get("contractAddress").and_then(|a| a.as_str()).map(|s| Hx::from_hex(s).to_address()));
+        let tx_ok = r.as_ref().ok().map(|v| v.get("status").and_then(|s| s.as_str()) == Some("0x1")).unwrap_or(false);
+        let code = created.and_then(|a| d.code(a)).map(|c| c.0).unwrap_or_default();
+        if r.is_err() { fails.push(json!({"what": "C17: the first transaction on an empty database was not accepted", "case": {"answer": format!("{:?}", r), "history": d.log.clone()}})); }
+        else if tx_ok != sim_out.0 || (tx_ok && code != sim_out.1) {
+            fails.push(json!({"what": "C17: on an empty database eth_call of a creation and the same deployment as the first transaction differ", "case": {"init": Hx(init.clone()).hex0x(), "sim_ok": sim_out.0, "sim": Hx(sim_out.1.clone()).hex0x(), "tx_ok": tx_ok, "code": Hx(code).hex0x(), "history": d.log.clone()}}));
+        } else { agree_ok += 1; }
+        if let (Some(a), Some(b)) = (ssim.first(), ss.first()) {
+            let (ea, eb) = (a.coq_env(), b.coq_env());
+            d.cases.push("pair", |id| format!("EPair {} {} {}", id, ea, eb), json!({"sim_env": a.env, "tx_env": b.env, "label": "empty-chain"}));
+        }
+        let base = all.terms.len();
+        for (i, t) in d.cases.terms.iter().enumerate() {
+            let mut parts = t.splitn(3, ' ');
+            let (c, _old, rest) = (parts.next().unwrap_or(""), parts.next(), parts.next().unwrap_or(""));
+            all.terms.push(format!("{} {} {}", c, base + i, rest));
+            let mut j = d.cases.jsonl[i].clone();
+            j["id"] = json!(base + i);
+            j["network"] = json!(cfg.network);
+            all.jsonl.push(j);
+        }
+        for p in d.cases.problems.drain(..) { fails.push(p); }
+    }
     for wi in 0..worlds {
         let cfg = match wi % 3 { 0 => NetCfg::regtest(), 1 => NetCfg::signet(0), _ => NetCfg::mainnet(0) };
         let mut d = Drv::new(cfg.clone());
